@@ -171,6 +171,20 @@ CHECKS = [
              "are decided by the bounded part only; known finding C10-offcycle-disqualifies",
      "not_covered": ["hourly monthly-coverage verdicts are decided by the bounded part only", "billing period day counting"],
      },
+    {"id": "C03", "level": "proof", "modules": ["contracts.C03_seed"], "bounded": ["flow.C03_tables", "bounded.C03_repeat"],
+     "technique": "deductive verification of the seed validator (pyvc, integer VCs, z3, counterexamples replayed) + ownership / frame obligations from the AST of the whole package + bounded repeated fits under different process histories",
+     "text": "Proof: for every seed value the hourly settings accept, _check_seed copies exactly that seed to _seed and to the ElasticNet and clustering "
+             "settings and draws nothing from the global generator; a missing seed is drawn once and the same value reaches both consumers. Ownership "
+             "obligations (violations when they fail): every attribute of a model / data / settings class that is mutated in place is only ever assigned "
+             "a fresh object, so no in-place write can land in the caller's settings, in another model or in a module constant. Frame conditions "
+             "(UNDECIDED when they stop holding, never an alarm): no module-level container is mutated, no mutable default is mutated or mutated "
+             "through the attribute it escapes to, the only process-global source of nondeterminism is the approved seed draw, every random_state "
+             "derives from the seed, the BLAS/OpenMP pins precede the numeric imports. Bounded (labelled so): real daily / billing / hourly fits in "
+             "worker processes compared bit for bit across histories (fresh, after other fits with other settings and supplemental columns, tight "
+             "batches on one data object, repeated, reordered, 4 threads in the environment, concurrent workers).",
+     "note": "history independence is a whole-history property; the deductive part decides the seed contract and the ownership invariant, the frame "
+             "conditions are conditions of the argument and the bounded part decides the rest; nlopt / sklearn / numba determinism is assumed",
+     "not_covered": ["CalTRACK hourly fits in the bounded part", "more than 4 concurrent workers", "bit-identity across machines / BLAS builds (not claimed by the property)"]},
     {"id": "C08", "level": "proof", "modules": ["contracts.C08_conserve"], "bounded": ["bounded.C08_conserve"],
      "technique": "deductive verification of the cleaning steps on a row-wise model (pyvc, z3) + bounded exact-arithmetic conservation through the real data classes",
      "text": "Proof: for one arbitrary row of an arbitrary frame, downsample_and_clean_daily_data keeps every day, blanks a day covered for half or "
